@@ -369,6 +369,9 @@ func TestVerifC02Server(t *testing.T) {
 		rr := m.Rand("B")
 		nMax := []int{1, 2, 5}[rr.Intn(3)]
 		mb := int64(1 + rr.Intn(4096))
+		if vk.Seed()%2 == 1 { // odd seeds: the smallest limit that is a limit
+			mb = 1
+		}
 		cfg := Config{Timeout: int64(c02LongTimeout / time.Millisecond), MaxConns: nMax, MaxBytes: mb}
 		c := mk("B", cfg)
 		short := time.Duration(30+rr.Intn(40)) * time.Millisecond
